@@ -109,6 +109,8 @@ def o3_no_unsaved_loss(steps, cfg, history):
                 strip_coll = bool(r and r['cur'] and post.cache.get(rec_addr(r, p)) and
                                   hashref.strip_crlf(post.cache[rec_addr(r, p)]['bytes'] or b'') == hashref.strip_crlf(b))
                 sig = {'kind': 'strip-collision'} if strip_coll else {'kind': 'bytes-lost', 'op': c['op']}
+                if r and r['cur'] and post.cache.get(rec_addr(r, p), {}).get('kind') == 'symlink':
+                    sig = {'kind': 'object-is-symlink'}
                 out.append((f"step {st['i']} {show_cmd(c)}: the {len(b)} bytes that were at {p} are neither at the path, nor at the destination, nor in the cache under the recorded digest", sig))
     return out
 
@@ -181,7 +183,9 @@ def o6_methods(steps, cfg, history):
                     if not r or r['method'] != c['method']:
                         out.append((f"step {st['i']} {show_cmd(c)}: recorded method of {t} is {r and r['method']}, requested {c['method']}", {'kind': 'method-not-recorded'}))
                     elif kind != want or (want != 'copy' and addr != rec_addr(r, t)):
-                        out.append((f"step {st['i']} {show_cmd(c)}: {t} is '{kind}' -> {addr}, requested {c['method']} of {rec_addr(r, t)}", {'kind': 'wrong-entry-kind'}))
+                        same_as_recorded = pre.recs[t]['method'] == c['method'] and not c.get('force') and pre.ws.get(t) is not None
+                        sig = {'kind': 'recheck-skips-when-requested-method-is-the-recorded-one'} if same_as_recorded else {'kind': 'wrong-entry-kind'}
+                        out.append((f"step {st['i']} {show_cmd(c)}: {t} is '{kind}' -> {addr}, requested {c['method']} of {rec_addr(r, t)}", sig))
                     elif o and read_through(post, t) != o['bytes']:
                         out.append((f"step {st['i']} {show_cmd(c)}: {t} does not yield the committed bytes", {'kind': 'wrong-bytes'}))
         if c['op'] == 'track' and not c.get('no_commit'):
@@ -425,6 +429,9 @@ CORPUS = [
     ('F12', DEF, [W('d/c.txt', b'l1\n'), T(['d/c.txt'], method='hardlink'), {'op': 'move', 'src': 'd/c.txt', 'dst': 'ünï/dätä.txt'}, RC(['ünï/dätä.txt'], method='copy')]),
     # F13 (fixed): re-track of symlinked files through a slash-containing target
     ('F13', DEF, [W('d/c.txt', b'l1\n'), W('a.txt', b'z\n'), T(['d/c.txt', 'a.txt'], method='symlink'), T(['d/c.txt', 'a.txt']), {'op': 'delete', 'path': 'd/c.txt'}, RC(['d/c.txt'])]),
+    # F18 (fixed): move must not delete a source whose content is not in the cache
+    ('F18', DEF, [W('a.txt', b'precious\n'), T(['a.txt'], no_commit=True), {'op': 'move', 'src': 'a.txt', 'dst': 'b.txt', 'method': 'hardlink'},
+                  {'op': 'move', 'src': 'a.txt', 'dst': 'b.txt', 'no_recheck': True}, {'op': 'move', 'src': 'a.txt', 'dst': 'b.txt'}]),
     # K7 (fixed): untrack of a hard link whose object is shared
     ('K7', DEF, [W('a.txt', b'dup\n'), W('b.txt', b'dup\n'), T(['a.txt', 'b.txt'], method='hardlink'), {'op': 'untrack', 'targets': ['a.txt']},
                  T(['a.txt'], method='reflink'), {'op': 'untrack', 'targets': ['a.txt', 'b.txt']}]),
@@ -438,6 +445,7 @@ KNOWN_REPLAYS = [
     ('K1-crlf', DEF, [W('lf.txt', b'l1\nl2\n'), W('crlf.txt', b'l1\r\nl2\r\n'), T(['lf.txt'], no_parallel=True), T(['crlf.txt'], no_parallel=True)]),
     # two paths share one object, so for one of them the object's mtime differs from the recorded one and the digest is
     # recomputed with the configured (auto) mode instead of the recorded (binary) one
+    ('K17-same-method', DEF, [W('f.txt', b'hello\n'), T(['f.txt'], method='symlink'), W('f.txt', b'hello\n'), RC(['f.txt'], method='symlink')]),
     ('K10-symlink-tob', DEF, [W('a.txt', b'l1\nl2\n'), W('b.txt', b'l1\nl2\n'), T(['a.txt', 'b.txt'], method='symlink', tob='binary', no_parallel=True),
                               CI(['a.txt'], no_parallel=True), CI(['b.txt'], no_parallel=True)]),
 ]
@@ -510,18 +518,24 @@ def run_property(chk, pid, oracles, want=('main',), restore=None, nq=280, nt=300
             if ml is None:
                 k += 1; continue
             d = compare_step(s, ml)
-            if d and len(hm[k].get('targets', [])) > 1:
+            if d:
                 # xvc processes the selected entities in HashMap (or rayon) order, the model in list order. With
-                # duplicates among the targets the outcome may depend on that order (which file's inode becomes the
-                # shared object).  The model is asked again with every permutation of this command's targets.
+                # duplicates among the targets the outcome may depend on that order (which file's inode - and mtime -
+                # becomes the shared object), and the difference may surface only in a later command.  The model is
+                # asked again with every permutation of the targets of this or an earlier multi-target command.
                 import itertools
-                for perm in itertools.permutations(hm[k]['targets']):
-                    h2 = hm[:k] + [dict(hm[k], targets=list(perm))] + hm[k + 1:]
-                    m2 = r.model_answers([(cfg, h2)])[0]
-                    if not compare_step(s, m2[k]):
-                        hm, m, d = h2, m2, None
-                        chk.count('order-permutation-needed')
-                        break
+                for j in range(k, -1, -1):
+                    if d is None or len(hm[j].get('targets', [])) < 2:
+                        continue
+                    for perm in itertools.permutations(hm[j]['targets']):
+                        if list(perm) == hm[j]['targets']:
+                            continue
+                        h2 = hm[:j] + [dict(hm[j], targets=list(perm))] + hm[j + 1:]
+                        m2 = r.model_answers([(cfg, h2)])[0]
+                        if all(not compare_step(steps[i], m2[i]) for i in range(j, k + 1)):
+                            hm, m, d = h2, m2, None
+                            chk.count('order-permutation-needed')
+                            break
             if d:
                 st_tie['disagreements'] += 1
                 if first_dis is None:
